@@ -24,8 +24,7 @@ Debit(t, a, x)  == [t EXCEPT !.bal[a] = @ - x]         \* caller has checked a \
 AllowOf(t, o, sp) == IF o \in Accts /\ sp \in Accts THEN t.allow[o][sp] ELSE NoAllow
 SumBalances(t) == SumFn(t.bal, Accts) + t.other
 
-\* instantiate with initial balances (a sequence of [a, x]); cw20-base rejects repeated addresses,
-\* cw20-legacy overwrites the balance of a repeated address but counts both in the supply
+\* instantiate with initial balances (a sequence of [a, x]); both variants reject repeated addresses
 RECURSIVE ApplyInitial(_, _, _)
 ApplyInitial(t, init, i) ==
   IF i > Len(init) THEN t
@@ -33,7 +32,7 @@ ApplyInitial(t, init, i) ==
 HasDuplicates(init) == \E i, j \in 1..Len(init) : i < j /\ init[i].a = init[j].a
 TokInstantiate(c, hub, marketing, init) ==
   IF c = "stsei" /\ marketing = "" THEN [ok |-> FALSE, t |-> EmptyToken(hub, marketing)]
-  ELSE IF c = "stsei" /\ HasDuplicates(init) THEN [ok |-> FALSE, t |-> EmptyToken(hub, marketing)]
+  ELSE IF HasDuplicates(init) THEN [ok |-> FALSE, t |-> EmptyToken(hub, marketing)]
   ELSE [ok |-> TRUE, t |-> ApplyInitial(EmptyToken(hub, marketing), init, 1)]
 
 -----------------------------------------------------------------------------
